@@ -96,7 +96,7 @@ fn checks() -> bool {
         }
     } } } }
     if ok { println!("BOUNDED-OK h1_request_framing cases={}", n); }
-    ok & chunk_syntax()
+    ok & chunk_syntax() & ws::check() & body_channel::check()
 }
 
 /// RFC 7230 4.1: chunk-size = 1*HEXDIG [ chunk-ext ] CRLF, chunk-data followed by CRLF; a malformed chunk ends the
@@ -138,4 +138,167 @@ fn chunk_syntax() -> bool {
     }
     println!("BOUNDED-OK h1_chunk_syntax cases={}", n);
     true
+}
+
+// ---------------------------------------------------------------- WebSocket codec round trip across roles (C14)
+mod ws {
+    use actix_codec::{Decoder, Encoder};
+    use actix_http::ws::{Codec, Frame, Item, Message};
+    use bytes::{Bytes, BytesMut};
+
+    fn payload(n: usize) -> Vec<u8> { (0..n).map(|i| (i * 31 % 251) as u8).collect() }
+    fn text(n: usize) -> String { (0..n).map(|i| (b'a' + (i % 26) as u8) as char).collect() }
+
+    fn expect_frame(m: &Message) -> Frame {
+        match m {
+            Message::Text(t) => Frame::Text(Bytes::copy_from_slice(t.as_bytes())),
+            Message::Binary(b) => Frame::Binary(b.clone()),
+            Message::Ping(b) => Frame::Ping(b.clone()),
+            Message::Pong(b) => Frame::Pong(b.clone()),
+            Message::Close(r) => Frame::Close(r.clone()),
+            Message::Continuation(Item::FirstText(b)) => Frame::Continuation(Item::FirstText(b.clone())),
+            Message::Continuation(Item::FirstBinary(b)) => Frame::Continuation(Item::FirstBinary(b.clone())),
+            Message::Continuation(Item::Continue(b)) => Frame::Continuation(Item::Continue(b.clone())),
+            Message::Continuation(Item::Last(b)) => Frame::Continuation(Item::Last(b.clone())),
+            Message::Nop => unreachable!(),
+        }
+    }
+    fn clone_msg(m: &Message) -> Message {
+        match m {
+            Message::Text(t) => Message::Text(t.clone()), Message::Binary(b) => Message::Binary(b.clone()), Message::Ping(b) => Message::Ping(b.clone()),
+            Message::Pong(b) => Message::Pong(b.clone()), Message::Close(r) => Message::Close(r.clone()), Message::Nop => Message::Nop,
+            Message::Continuation(Item::FirstText(b)) => Message::Continuation(Item::FirstText(b.clone())),
+            Message::Continuation(Item::FirstBinary(b)) => Message::Continuation(Item::FirstBinary(b.clone())),
+            Message::Continuation(Item::Continue(b)) => Message::Continuation(Item::Continue(b.clone())),
+            Message::Continuation(Item::Last(b)) => Message::Continuation(Item::Last(b.clone())),
+        }
+    }
+
+    pub fn check() -> bool {
+        let sizes = [0usize, 1, 2, 3, 4, 5, 7, 8, 15, 16, 17, 31, 33, 125, 126, 127, 1000, 65535, 65536, 70000];
+        // message sequences: singles, and a fragmented message with a ping in between
+        let mut seqs: Vec<Vec<Message>> = Vec::new();
+        for n in sizes {
+            seqs.push(vec![Message::Text(text(n).into())]);
+            seqs.push(vec![Message::Binary(Bytes::from(payload(n)))]);
+            if n <= 125 { seqs.push(vec![Message::Ping(Bytes::from(payload(n)))]); seqs.push(vec![Message::Pong(Bytes::from(payload(n)))]); }
+            seqs.push(vec![Message::Continuation(Item::FirstBinary(Bytes::from(payload(n)))), Message::Ping(Bytes::from_static(b"p")), Message::Continuation(Item::Continue(Bytes::from(payload(3)))), Message::Continuation(Item::Last(Bytes::from(payload(n))))]);
+        }
+        seqs.push(vec![Message::Close(None)]);
+        seqs.push(vec![Message::Close(Some(actix_http::ws::CloseCode::Normal.into()))]);
+        let mut n = 0usize;
+        for seq in &seqs {
+            for client_sends in [true, false] {
+                let mut enc = if client_sends { Codec::new().client_mode() } else { Codec::new() }.max_size(100_000);
+                let mut dec = if client_sends { Codec::new() } else { Codec::new().client_mode() }.max_size(100_000);
+                let mut wire = BytesMut::new();
+                for m in seq { if enc.encode(clone_msg(m), &mut wire).is_err() { println!("BOUNDED-FAIL ws_round_trip input={:?} expected=encodes got=error", m); return false; } }
+                let expect: Vec<Frame> = seq.iter().map(expect_frame).collect();
+                let total = wire.len();
+                let mut cuts: Vec<usize> = if total <= 300 { (0..=total).collect() } else { vec![0, 1, 2, 3, 5, 9, 10, 11, 13, 14, 15, total / 2, total - 1, total] };
+                cuts.dedup();
+                for cut in cuts {
+                    n += 1;
+                    let mut d = if client_sends { Codec::new() } else { Codec::new().client_mode() }.max_size(100_000);
+                    std::mem::swap(&mut d, &mut dec);
+                    let mut buf = BytesMut::new();
+                    let mut got: Vec<Frame> = Vec::new();
+                    let mut bad = None;
+                    for piece in [&wire[..cut], &wire[cut..]] {
+                        buf.extend_from_slice(piece);
+                        loop { match dec.decode(&mut buf) { Ok(Some(f)) => got.push(f), Ok(None) => break, Err(e) => { bad = Some(format!("{:?}", e)); break; } } }
+                        if bad.is_some() { break; }
+                    }
+                    if bad.is_some() || got != expect || !buf.is_empty() {
+                        println!("BOUNDED-FAIL ws_round_trip input=({} sends {} message(s), first of {} payload bytes, wire cut at {} of {}) expected=the same messages got={}", if client_sends { "client" } else { "server" }, seq.len(),
+                            match &seq[0] { Message::Text(t) => t.len(), Message::Binary(b) | Message::Ping(b) | Message::Pong(b) => b.len(), _ => 0 }, cut, total, bad.unwrap_or_else(|| format!("{} frames, {} bytes left", got.len(), buf.len())));
+                        return false;
+                    }
+                }
+                // wrong masking for the role: what a client sent is refused by a client-mode decoder and vice versa
+                n += 1;
+                let mut wrong = if client_sends { Codec::new().client_mode() } else { Codec::new() }.max_size(100_000);
+                let mut buf = BytesMut::from(&wire[..]);
+                if !matches!(wrong.decode(&mut buf), Err(_)) { println!("BOUNDED-FAIL ws_round_trip input=(frame with the wrong masking for the receiving role) expected=a protocol error got=accepted"); return false; }
+            }
+        }
+        // a complete frame larger than max_size is refused and never delivered
+        n += 1;
+        let mut enc = Codec::new().client_mode();
+        let mut wire = BytesMut::new();
+        let _ = enc.encode(Message::Binary(Bytes::from(payload(200))), &mut wire);
+        let mut small = Codec::new().max_size(100);
+        if !matches!(small.decode(&mut wire), Err(_)) { println!("BOUNDED-FAIL ws_round_trip input=(200 byte frame, max_size 100) expected=Overflow got=delivered"); return false; }
+        println!("BOUNDED-OK ws_round_trip cases={}", n);
+        true
+    }
+}
+
+// ---------------------------------------------------------------- request-body channel against a reference queue (C07)
+mod body_channel {
+    use std::{pin::Pin, task::{Context, Poll}};
+    use actix_http::{error::PayloadError, h1::Payload};
+    use bytes::Bytes;
+
+    #[derive(Clone, Copy, Debug)]
+    enum Op { Feed(u8), Eof, Error, DropSender, Read }
+
+    #[derive(Debug, PartialEq)]
+    enum R { Data(Vec<u8>), End, Incomplete, OtherError, Pending }
+
+    pub fn check() -> bool {
+        let ops = [Op::Feed(1), Op::Feed(2), Op::Eof, Op::Error, Op::DropSender, Op::Read];
+        let mut seqs: Vec<Vec<Op>> = vec![vec![]];
+        let mut layer: Vec<Vec<Op>> = vec![vec![]];
+        for _ in 0..6 { let mut next = Vec::new(); for s in &layer { for o in &ops { let mut t = s.clone(); t.push(*o); next.push(t); } } seqs.extend(next.iter().cloned()); layer = next; }
+        let waker = futures_noop();
+        let mut n = 0usize;
+        for seq in &seqs {
+            n += 1;
+            let (tx, mut rx) = Payload::create(false);
+            let mut tx = Some(tx);
+            // reference: queued chunks, then a recorded ending (the first of eof / error / sender drop wins; an error set after data is reported after the data)
+            let mut queue: std::collections::VecDeque<Vec<u8>> = Default::default();
+            let mut ending: Option<R> = None;
+            let mut error_reported = false;
+            let mut cx = Context::from_waker(&waker);
+            for (i, op) in seq.iter().enumerate() {
+                match *op {
+                    Op::Feed(k) => { if let Some(t) = tx.as_mut() { if ending.is_none() { t.feed_data(Bytes::from(vec![k; k as usize])); queue.push_back(vec![k; k as usize]); } } }
+                    Op::Eof => { if let Some(t) = tx.as_mut() { if ending.is_none() { t.feed_eof(); ending = Some(R::End); } } }
+                    Op::Error => { if let Some(t) = tx.as_mut() { if ending.is_none() { t.set_error(PayloadError::Overflow); ending = Some(R::OtherError); } } }
+                    Op::DropSender => { if tx.take().is_some() && ending.is_none() { ending = Some(R::Incomplete); } }
+                    Op::Read => {
+                        let got = match Pin::new(&mut rx).poll_next(&mut cx) {
+                            Poll::Ready(Some(Ok(b))) => R::Data(b.to_vec()),
+                            Poll::Ready(Some(Err(PayloadError::Incomplete(_)))) => R::Incomplete,
+                            Poll::Ready(Some(Err(_))) => R::OtherError,
+                            Poll::Ready(None) => R::End,
+                            Poll::Pending => R::Pending,
+                        };
+                        let exp = if let Some(d) = queue.pop_front() { R::Data(d) } else {
+                            match ending.take() { Some(R::End) => { ending = Some(R::End); R::End } Some(e) => { ending = Some(R::End); e } None => R::Pending }
+                        };
+                        // what a poll returns AFTER an error ending has been reported is not part of the property: stop looking
+                        if error_reported { continue; }
+                        if matches!(exp, R::Incomplete | R::OtherError) { error_reported = true; }
+                        if got != exp {
+                            println!("BOUNDED-FAIL body_channel input={:?} expected=read #{} gives {:?} got={:?}", seq, i, exp, got);
+                            return false;
+                        }
+                    }
+                }
+            }
+        }
+        println!("BOUNDED-OK body_channel cases={}", n);
+        true
+    }
+    fn futures_noop() -> std::task::Waker {
+        use std::task::{RawWaker, RawWakerVTable, Waker};
+        fn no(_: *const ()) {}
+        fn clone(_: *const ()) -> RawWaker { RawWaker::new(std::ptr::null(), &VT) }
+        static VT: RawWakerVTable = RawWakerVTable::new(clone, no, no, no);
+        unsafe { Waker::from_raw(RawWaker::new(std::ptr::null(), &VT)) }
+    }
+    use futures_core::Stream;
 }
